@@ -137,7 +137,15 @@ def gen_case(rng, tier, index):
                 p["lines"] = [body[0],
                               {"raw": ".cfi_adjust_cfa_offset 8",
                                "cfi": [".cfi_adjust_cfa_offset", [8]]}] + \
-                    body[1:] + [{"k": "nop"},
+                    body[1:] + [{"k": "nop"}] + (
+                        # sometimes a label stands in front of the closing
+                        # directive: the patch's last block is empty, holds
+                        # a label and the directive
+                        [{"l": f".Lpt{case['edits'].index(e)}_t",
+                          "temp": True}]
+                        if random.Random(
+                            f"tl:{index}:{case['edits'].index(e)}"
+                        ).random() < 0.3 else []) + [
                                 {"raw": ".cfi_adjust_cfa_offset -8",
                                  "cfi": [".cfi_adjust_cfa_offset", [-8]]}]
             else:
@@ -208,7 +216,14 @@ def after_patch_with_trailing_directives(case, eid):
         kind = vocab.VOCAB[case["isa"]][lines[last_i]["k"]]["kind"]
         if kind in ("jmp", "ret", "ijmp", "halt") and any(
                 "raw" in ln for ln in lines[last_i + 1:]):
-            return True
+            return "jump"
+        # ... or in a label followed only by directives: the patch's last
+        # block is empty again
+        tail = lines[last_i + 1:]
+        if any("l" in ln for ln in tail) and "raw" in tail[-1] and any(
+                "l" in ln for ln in tail[:max(
+                    j for j, ln in enumerate(tail) if "raw" in ln)]):
+            return "label"
     return False
 
 
@@ -522,7 +537,10 @@ def run_case(case):
                 pctx = ":block-start-after-edit-at-previous-block-end"
             elif after_patch_with_trailing_directives(case, t.patch):
                 pctx = (":after-patch-leaving-through-a-jump-with-trailing-"
-                        "directives")
+                        "directives") if after_patch_with_trailing_directives(
+                            case, t.patch) == "jump" else (
+                    ":after-patch-ending-in-a-label-with-trailing-"
+                    "directives")
             if (was is None) != (now is None) and \
                     boundary_inside_adjacent_deletion(case, blk, b, i):
                 # a procedure boundary stood inside a range that is deleted
